@@ -135,6 +135,47 @@ Proof.
   apply andb_true_intro; split; [exact Hflat|exact H1].
 Qed.
 
+(* chains of length 2 over the table: the selected recipe and the recipes of
+   its computed required features are outside the listed findings *)
+Definition chain_feat_reg (b : base) (g : Z) : bool :=
+  in_base b g
+  || (stable registry b g
+      && match select SF registry (fresh b) g with
+         | Some rg => forallb (in_base b) (r_feats rg)
+                      && negb (known_incomplete rg)
+         | None => false
+         end).
+
+Lemma registry_read_coherent_chain : forall b ops f,
+  let st := run_state registry (fresh b) ops in
+  select SF registry st f = select SF registry (clear st) f ->
+  (forall r, select SF registry st f = Some r ->
+     forallb (chain_feat_reg (s_base st)) (r_feats r) = true
+     /\ known_incomplete r = false) ->
+  snd (read RF registry st f) = snd (read RF registry (clear st) f).
+Proof.
+  intros b ops f st Hsel Hg.
+  apply history_read_coherent_chain2; auto using registry_collide_ok.
+  intros r Hr. destruct (Hg r Hr) as [Hch Hk].
+  destruct (select_some _ _ _ _ _ Hr) as [Hin _].
+  destruct (registry_recipes_coherent r Hin Hk) as [H1 [H2 [H3 H4]]].
+  unfold chain_recipe, method_ok.
+  apply andb_true_intro; split;
+    [|now rewrite H1, H2, H3, H4].
+  rewrite forallb_forall in *. intros g Hgin. specialize (Hch g Hgin).
+  unfold chain_feat_reg in Hch. unfold chain_feat.
+  fold st. destruct (in_base (s_base st) g); [reflexivity|].
+  cbn [orb] in *. apply andb_prop in Hch. destruct Hch as [Hst Hs].
+  rewrite Hst. cbn [andb].
+  destruct (select SF registry (fresh (s_base st)) g) as [rg|] eqn:Eg;
+    [|discriminate Hs].
+  apply andb_prop in Hs. destruct Hs as [Hflat Hkg].
+  apply negb_true_iff in Hkg.
+  destruct (select_some _ _ _ _ _ Eg) as [Hing _].
+  destruct (registry_recipes_coherent rg Hing Hkg) as [G1 [G2 [G3 G4]]].
+  unfold method_ok. now rewrite Hflat, G1, G2, G3, G4.
+Qed.
+
 (* available exactly when reading succeeds, for every recipe of the table
    outside the emodulus / 2-channel crosstalk findings *)
 Lemma registry_available_iff_readable : forall st f,
@@ -292,4 +333,24 @@ Proof.
   split; [vm_compute; reflexivity|].
   intros r H. vm_compute in H. inversion H. subst r. vm_compute.
   split; reflexivity.
+Qed.
+
+(* non-vacuity of the chain theorem: volume <- contour <- mask, the pixel
+   size changes between two reads *)
+Example registry_read_coherent_chain_example :
+  let b := mkBase [(f_mask, 0); (f_pos_x, 0); (f_pos_y, 0)] []
+                  [(k_pixel_size, 1)] in
+  let ops := [Read f_volume; SetCfg k_pixel_size 2] in
+  let st := run_state registry (fresh b) ops in
+  select SF registry st f_volume = select SF registry (clear st) f_volume
+  /\ (forall r, select SF registry st f_volume = Some r ->
+       forallb (chain_feat_reg (s_base st)) (r_feats r) = true
+       /\ known_incomplete r = false
+       /\ forallb (in_base (s_base st)) (r_feats r) = false)
+  /\ has f_volume (s_cache st) = true /\ has f_contour (s_cache st) = true.
+Proof.
+  cbv zeta. split; [vm_compute; reflexivity|]. split.
+  - intros r H. vm_compute in H. inversion H. subst r. vm_compute.
+    repeat split; reflexivity.
+  - split; vm_compute; reflexivity.
 Qed.
